@@ -38,8 +38,9 @@ import (
 var ctx = context.Background()
 
 type step struct {
-	Op   string `json:"op"` // create snap pull
-	R, S int    `json:"r"`
+	Op string `json:"op"` // create snap pull
+	R  int    `json:"r"`
+	S  int    `json:"s"`
 }
 
 func (s step) String() string {
@@ -80,6 +81,16 @@ func newEnv(f *treesim.Fixture) *env {
 func (e *env) newTree() (objecttree.ObjectTree, objecttree.Storage) {
 	st := treesim.NewMemTreeStorage(e.root)
 	t, err := objecttree.BuildTestableTree(st, e.acl)
+	if err != nil {
+		panic(err)
+	}
+	return t, st
+}
+
+// newRejectingTree is newTree with a validator that refuses every batch holding a change whose id starts with "zz".
+func (e *env) newRejectingTree() (objecttree.ObjectTree, objecttree.Storage) {
+	st := treesim.NewMemTreeStorage(e.root)
+	t, err := objecttree.VerifBuildTestableTreeRejecting(st, e.acl, func(id string) bool { return strings.HasPrefix(id, "zz") })
 	if err != nil {
 		panic(err)
 	}
@@ -294,8 +305,9 @@ func isPrefix(a, b []string) bool {
 type feeding struct {
 	Perm      []int  `json:"perm"`
 	Sizes     []int  `json:"sizes"`
-	HeadsMode string `json:"heads"`  // sender | batch
-	Reopen    int    `json:"reopen"` // reopen after this many batches (-1 never)
+	HeadsMode string `json:"heads"`              // sender | batch
+	Reopen    int    `json:"reopen"`             // reopen after this many batches (-1 never)
+	Refusals  bool   `json:"refusals,omitempty"` // before every call, one refused batch per current head is offered
 }
 
 type dagCase struct {
@@ -368,106 +380,130 @@ func (e *env) checkDag(c *vk.Ctx, cs []chg, dc dagCase) (out []finding) {
 					if lite && (hm == "batch" || (reopen >= 0 && reopen != len(sizes)-1)) {
 						continue
 					}
-					f := feeding{Perm: perm, Sizes: sizes, HeadsMode: hm, Reopen: reopen}
-					t, st := e.newTree()
-					c.Count("executions", 1)
-					orderOf := map[string]string{}
-					pos := 0
-					batches := append([]int{}, sizes...)
-					batches = append(batches, -1) // final: everything in creation order
-					for bi, sz := range batches {
-						var raws []*treechangeproto.RawTreeChangeWithId
-						var bids []string
-						if sz < 0 {
-							raws = all
-						} else {
-							for _, pi := range perm[pos : pos+sz] {
-								raws = append(raws, cs[pi].raw)
-								bids = append(bids, cs[pi].Id)
-							}
-							pos += sz
-						}
-						heads := senderHeads
-						if hm == "batch" && sz >= 0 {
-							heads = maximal(bids, parents)
-						}
-						before := presented(t)
-						res, err := addRaw(t, objecttree.RawChangesPayload{NewHeads: heads, RawChanges: raws, SnapshotPath: senderPath})
-						c.Count("transitions", 1)
-						if err != nil {
-							// an error means no progress; the final complete batch must succeed
-							if sz < 0 {
-								add(f, "final-complete-batch-rejected", "batch of all changes in creation order failed: %v", err)
-							}
+					for _, refusals := range []bool{false, true} {
+						if refusals && (reopen >= 0 || hm == "batch") {
 							continue
 						}
-						after := presented(t)
-						if res.Mode == objecttree.Append && !isPrefix(before, after) {
-							add(f, "append-but-not-prefix", "batch %d reported Append but presented sequence went %v -> %v", bi, before, after)
+						f := feeding{Perm: perm, Sizes: sizes, HeadsMode: hm, Reopen: reopen, Refusals: refusals}
+						t, st := e.newTree()
+						if refusals {
+							t, st = e.newRejectingTree()
 						}
-						if m := isLinearExtension(after, parents); m != "" {
-							add(f, "presented-order-violates-causality", "after batch %d presented %v: %s", bi, after, m)
-						}
-						rows := stored(st)
-						sids := idsOf(rows)
-						if m := isLinearExtension(sids, parents); m != "" {
-							add(f, "stored-order-violates-causality", "after batch %d stored %v: %s", bi, sids, m)
-						}
-						seenOrder := map[string]string{}
-						for _, r := range rows {
-							if prev, ok := orderOf[r.id]; ok && prev != r.order {
-								add(f, "order-id-changed", "order id of %s changed from %q to %q", r.id, prev, r.order)
+						c.Count("executions", 1)
+						orderOf := map[string]string{}
+						pos := 0
+						batches := append([]int{}, sizes...)
+						batches = append(batches, -1) // final: everything in creation order
+						for bi, sz := range batches {
+							var raws []*treechangeproto.RawTreeChangeWithId
+							var bids []string
+							if sz < 0 {
+								raws = all
+							} else {
+								for _, pi := range perm[pos : pos+sz] {
+									raws = append(raws, cs[pi].raw)
+									bids = append(bids, cs[pi].Id)
+								}
+								pos += sz
 							}
-							orderOf[r.id] = r.order
-							if other, ok := seenOrder[r.order]; ok {
-								add(f, "order-id-not-unique", "%s and %s share order id %q", other, r.id, r.order)
+							heads := senderHeads
+							if hm == "batch" && sz >= 0 {
+								heads = maximal(bids, parents)
 							}
-							seenOrder[r.order] = r.id
-						}
-						// same stored set => same stored sequence; same (set, in-memory root) => same presented sequence
-						setKey := strings.Join(sortedCopy(sids), ",")
-						rootId, _, _ := objecttree.VerifTreeState(t)
-						bmu.Lock()
-						if prev, ok := bySet["S|"+setKey]; ok && prev != strings.Join(sids, ",") {
-							add(f, "stored-order-depends-on-history", "set {%s} stored as %v here but as [%s] by another feeding", setKey, sids, prev)
-						}
-						bySet["S|"+setKey] = strings.Join(sids, ",")
-						pk := "P|" + setKey + "|" + rootId
-						if prev, ok := bySet[pk]; ok && prev != strings.Join(after, ",") {
-							add(f, "presented-order-depends-on-history", "set {%s} root %s presented as %v here but as [%s] by another feeding", setKey, rootId, after, prev)
-						}
-						bySet[pk] = strings.Join(after, ",")
-						bmu.Unlock()
-						if want := restrict(full, after); strings.Join(want, ",") != strings.Join(after, ",") && len(sids) == len(cs)+1 {
-							add(f, "view-not-restriction-of-full-order", "view %v is not the full order %v restricted to its contents", after, full)
-						}
-						if bi == reopen {
-							nt, err := objecttree.BuildTestableTree(st, e.acl)
-							if err != nil {
-								add(f, "reopen-failed", "after batch %d: %v", bi, err)
-								break
-							}
-							rp := presented(nt)
-							if m := isLinearExtension(rp, parents); m != "" {
-								add(f, "presented-order-violates-causality", "reopened after batch %d presented %v: %s", bi, rp, m)
-							}
-							if len(sids) == len(cs)+1 {
-								if want := restrict(full, rp); strings.Join(want, ",") != strings.Join(rp, ",") {
-									add(f, "reopened-view-not-restriction-of-full-order", "reopened view %v vs full order %v", rp, full)
+							if refusals {
+								// a batch the validator refuses, on top of each current head in turn: it must leave no trace
+								snap0 := fmt.Sprint(presented(t), stored(st), sortedCopy(t.Heads()))
+								for hi, h := range append([]string{}, t.Heads()...) {
+									pid := fmt.Sprintf("zz%d.%d", bi, hi)
+									poison := e.creator.CreateRaw(pid, e.acl.Head().Id, t.Root().Id, false, h)
+									_, perr := addRaw(t, objecttree.RawChangesPayload{NewHeads: []string{pid}, RawChanges: []*treechangeproto.RawTreeChangeWithId{poison}, SnapshotPath: senderPath})
+									c.Count("transitions", 1)
+									if perr == nil {
+										add(f, "harness-refusal-not-refused", "poison change %s on %s was accepted", pid, h)
+									}
+								}
+								if snap1 := fmt.Sprint(presented(t), stored(st), sortedCopy(t.Heads())); snap1 != snap0 {
+									add(f, "refused-batch-changed-state", "before batch %d: refused batches changed presented / stored / heads from %s to %s", bi, snap0, snap1)
 								}
 							}
-							if strings.Join(sortedCopy(nt.Heads()), ",") != strings.Join(sortedCopy(t.Heads()), ",") {
-								add(f, "reopened-heads-differ", "live heads %v, reopened heads %v", t.Heads(), nt.Heads())
+							before := presented(t)
+							res, err := addRaw(t, objecttree.RawChangesPayload{NewHeads: heads, RawChanges: raws, SnapshotPath: senderPath})
+							c.Count("transitions", 1)
+							if err != nil {
+								// an error means no progress; the final complete batch must succeed
+								if sz < 0 {
+									add(f, "final-complete-batch-rejected", "batch of all changes in creation order failed: %v", err)
+								}
+								continue
 							}
-							t = nt
+							after := presented(t)
+							if res.Mode == objecttree.Append && !isPrefix(before, after) {
+								add(f, "append-but-not-prefix", "batch %d reported Append but presented sequence went %v -> %v", bi, before, after)
+							}
+							if m := isLinearExtension(after, parents); m != "" {
+								add(f, "presented-order-violates-causality", "after batch %d presented %v: %s", bi, after, m)
+							}
+							rows := stored(st)
+							sids := idsOf(rows)
+							if m := isLinearExtension(sids, parents); m != "" {
+								add(f, "stored-order-violates-causality", "after batch %d stored %v: %s", bi, sids, m)
+							}
+							seenOrder := map[string]string{}
+							for _, r := range rows {
+								if prev, ok := orderOf[r.id]; ok && prev != r.order {
+									add(f, "order-id-changed", "order id of %s changed from %q to %q", r.id, prev, r.order)
+								}
+								orderOf[r.id] = r.order
+								if other, ok := seenOrder[r.order]; ok {
+									add(f, "order-id-not-unique", "%s and %s share order id %q", other, r.id, r.order)
+								}
+								seenOrder[r.order] = r.id
+							}
+							// same stored set => same stored sequence; same (set, in-memory root) => same presented sequence
+							setKey := strings.Join(sortedCopy(sids), ",")
+							rootId, _, _ := objecttree.VerifTreeState(t)
+							bmu.Lock()
+							if prev, ok := bySet["S|"+setKey]; ok && prev != strings.Join(sids, ",") {
+								add(f, "stored-order-depends-on-history", "set {%s} stored as %v here but as [%s] by another feeding", setKey, sids, prev)
+							}
+							bySet["S|"+setKey] = strings.Join(sids, ",")
+							pk := "P|" + setKey + "|" + rootId
+							if prev, ok := bySet[pk]; ok && prev != strings.Join(after, ",") {
+								add(f, "presented-order-depends-on-history", "set {%s} root %s presented as %v here but as [%s] by another feeding", setKey, rootId, after, prev)
+							}
+							bySet[pk] = strings.Join(after, ",")
+							bmu.Unlock()
+							if want := restrict(full, after); strings.Join(want, ",") != strings.Join(after, ",") && len(sids) == len(cs)+1 {
+								add(f, "view-not-restriction-of-full-order", "view %v is not the full order %v restricted to its contents", after, full)
+							}
+							if bi == reopen {
+								nt, err := objecttree.BuildTestableTree(st, e.acl)
+								if err != nil {
+									add(f, "reopen-failed", "after batch %d: %v", bi, err)
+									break
+								}
+								rp := presented(nt)
+								if m := isLinearExtension(rp, parents); m != "" {
+									add(f, "presented-order-violates-causality", "reopened after batch %d presented %v: %s", bi, rp, m)
+								}
+								if len(sids) == len(cs)+1 {
+									if want := restrict(full, rp); strings.Join(want, ",") != strings.Join(rp, ",") {
+										add(f, "reopened-view-not-restriction-of-full-order", "reopened view %v vs full order %v", rp, full)
+									}
+								}
+								if strings.Join(sortedCopy(nt.Heads()), ",") != strings.Join(sortedCopy(t.Heads()), ",") {
+									add(f, "reopened-heads-differ", "live heads %v, reopened heads %v", t.Heads(), nt.Heads())
+								}
+								t = nt
+							}
 						}
+						final := idsOf(stored(st))
+						if strings.Join(final, ",") != strings.Join(refStored, ",") {
+							add(f, "stored-order-differs-between-replicas", "stored %v, reference replica (creation order) stored %v", final, refStored)
+						}
+						c.Count("evaluations", 1)
+						c.Distinct("distinct", dagKey(cs)+fmt.Sprint(perm, sizes))
 					}
-					final := idsOf(stored(st))
-					if strings.Join(final, ",") != strings.Join(refStored, ",") {
-						add(f, "stored-order-differs-between-replicas", "stored %v, reference replica (creation order) stored %v", final, refStored)
-					}
-					c.Count("evaluations", 1)
-					c.Distinct("distinct", dagKey(cs)+fmt.Sprint(perm, sizes))
 				}
 			}
 		}
@@ -571,7 +607,7 @@ func TestCheck(t *testing.T) {
 	vk.Main(t, vk.Spec{
 		Prop:  "C06",
 		Level: "model_checking",
-		Rule: "all honest DAGs produced by programs of create(plain|snapshot) / pull over two creator replicas with <= N changes, and over three creator replicas (three concurrent children of one change) with the bounds given in the evidence, and every assignment of letter ids (all relative id orders); for each final change set every arrival permutation x batch partition x head announcement (sender heads | batch maxima) x reopen point is fed to a fresh real object tree (each feeding ends with the complete set); " +
+		Rule: "all honest DAGs produced by programs of create(plain|snapshot) / pull over two creator replicas with <= N changes, and over three creator replicas (three concurrent children of one change) with the bounds given in the evidence, and every assignment of letter ids (all relative id orders); for each final change set every arrival permutation x batch partition x head announcement (sender heads | batch maxima) x reopen point is fed to a fresh real object tree (each feeding ends with the complete set); every (arrival order, partition) is repeated on a tree whose validator refuses marked changes, with one refused batch per current head offered before every call; " +
 			"states = distinct DAGs (shape + ids + snapshot placement); transitions = AddRawChanges calls; distinct_nontrivial = distinct (DAG, arrival order, partition) feedings of DAGs with a fork or a snapshot",
 		Assumptions: []string{
 			"test change builder (no signatures) and no-op validator: ordering logic only; feedings run over an in-memory implementation of the storage interface; for every DAG the creation-order feed is repeated on a real any-store tree storage and must store the identical (id, order id) sequence and reopen to the same heads",
@@ -580,7 +616,7 @@ func TestCheck(t *testing.T) {
 		Shards: func(string) int { return 16 },
 		Budget: func(tier string) time.Duration {
 			if tier == "quick" {
-				return 90 * time.Second
+				return 150 * time.Second
 			}
 			return 25 * time.Minute
 		},
